@@ -10,11 +10,19 @@ def main():
     rows = collections.defaultdict(list)
     seeded = collections.Counter()
     bad = []
-    for line in open(sys.argv[1]):
-        line = line.strip()
-        if not line.startswith("{"):
-            continue
-        r = json.loads(line)
+    last = {}
+    for path in sys.argv[1:]:
+        for line in open(path):
+            line = line.strip()
+            if not line.startswith("{"):
+                continue
+            try:
+                r = json.loads(line)
+            except ValueError:
+                continue
+            r["patch"] = os.path.join("/verif", r["patch"]) if not r["patch"].startswith("/") else r["patch"]
+            last[(r["prop"], r["patch"])] = r  # (a later log line about the same patch - a re-run after strengthening - wins)
+    for r in last.values():
         name = os.path.basename(r["patch"])
         if "/seeded/" in r["patch"]:
             seeded[r["status"]] += 1
